@@ -3,6 +3,8 @@
 //!                  translates and every variant with one vertex inserted on an edge are queried at
 //!                  every window point through `ShapeTrait::contains`.
 //!  contains_rect / contains_path   S->I for rectangles and Manhattan paths.
+//!  contains_at     S->I: a polygon at chip-scale coordinates with explicit query points and the expected
+//!                  answers of MC_WideCases; the polygon is also queried reversed and from every starting vertex.
 //!  contains_random I->S: random larger simple polygons / paths; (shape, point, answer) events.
 use crate::util::*;
 use crate::CmdFn;
@@ -11,7 +13,7 @@ use serde_json::{json, Value};
 
 pub fn commands() -> Vec<(&'static str, CmdFn)> {
     vec![("contains_poly", contains_poly), ("contains_rect", contains_rect), ("contains_path", contains_path),
-         ("contains_random", contains_random)]
+         ("contains_random", contains_random), ("contains_at", contains_at)]
 }
 
 pub fn pts_of(v: &Value) -> Vec<Point> {
@@ -64,6 +66,40 @@ fn contains_poly(case: &Value) -> Value {
     }
     let nm = mism.len();
     mism.retain(|m| !m.is_null());
+    json!({"id": id(case), "outcome": "ok", "evals": evals, "nmismatch": nm, "mismatch": mism})
+}
+
+fn contains_at(case: &Value) -> Value {
+    // {poly:[[x,y]..], qs:[[x,y]..], expect:[0/1..]}
+    let base = pts_of(&case["poly"]);
+    let qs = pts_of(&case["qs"]);
+    let expect = ivec(&case["expect"]);
+    let n = base.len();
+    let mut variants: Vec<(String, Vec<Point>)> = Vec::new();
+    for r in 0..n {
+        let mut v = base.clone();
+        v.rotate_left(r);
+        variants.push((format!("start{}", r), v.clone()));
+        v.reverse();
+        variants.push((format!("start{}-reversed", r), v));
+    }
+    let mut mism = Vec::new();
+    let mut nm = 0u64;
+    let mut evals = 0u64;
+    for (name, pts) in variants {
+        let poly = Shape::Polygon(Polygon { points: pts.clone() });
+        for (q, e) in qs.iter().zip(expect.iter()) {
+            let got = poly.contains(q);
+            evals += 1;
+            if got != (*e == 1) {
+                nm += 1;
+                if mism.len() < 6 {
+                    mism.push(json!({"variant": name, "points": pts.iter().map(|p| vec![p.x, p.y]).collect::<Vec<_>>(),
+                                     "query": [q.x, q.y], "got": got, "expected": *e == 1}));
+                }
+            }
+        }
+    }
     json!({"id": id(case), "outcome": "ok", "evals": evals, "nmismatch": nm, "mismatch": mism})
 }
 
